@@ -126,6 +126,10 @@ def _tz(z):
 
 
 def _pool(pool, n, rng, vals, extra=None):
+    if vals == "huge":      # values of several thousand bytes that differ only at their end (and one of exactly 4096)
+        cand = ["h" * 5000 + "-a", "h" * 5000 + "-b", "g" * 4097, "z" * 4096, "h" * 4999]
+        cand = [c.encode() for c in cand] if pool and isinstance(pool[0], bytes) else cand
+        return [cand[i] for i in rng.integers(0, len(cand), n)]
     if vals == "long":      # only values longer than 64 bytes (many of them sharing a long prefix)
         cand = [x for x in pool if len(x if isinstance(x, bytes) else x.encode("utf8")) > 64] or list(pool)
         return [cand[i] for i in rng.integers(0, len(cand), n)]
